@@ -1,0 +1,67 @@
+//go:build verif
+
+package meta
+
+// Contracts for the govc verifier (/verif). Comments only: this file adds no declarations.
+// Syntax: /verif/DESIGN.md section 3.5. Integers in specifications are mathematical.
+
+// ---- C05: range / length restrictions ---------------------------------------------------------------
+
+// numeric scalar values a range can be applied to
+//@ pure rangeable(v val.Value) bool = dyn(v) == val.Int8 || dyn(v) == val.UInt8 || dyn(v) == val.Int16 || dyn(v) == val.UInt16 || dyn(v) == val.Int32 \
+//@      || dyn(v) == val.UInt32 || dyn(v) == val.Int64 || dyn(v) == val.UInt64 || dyn(v) == val.Decimal64
+
+//@ pure ival(v val.Value) int = dyn(v) == val.Int8 ? v.(val.Int8) : dyn(v) == val.UInt8 ? v.(val.UInt8) : dyn(v) == val.Int16 ? v.(val.Int16) : \
+//@      dyn(v) == val.UInt16 ? v.(val.UInt16) : dyn(v) == val.Int32 ? v.(val.Int32) : dyn(v) == val.UInt32 ? v.(val.UInt32) : \
+//@      dyn(v) == val.Int64 ? v.(val.Int64) : dyn(v) == val.UInt64 ? v.(val.UInt64) : 0
+
+// a parsed bound: exactly one of min / max / integer / unsigned / float (what newRangeNumber produces)
+//@ macro wfNum(n RangeNumber) bool = (n.isMin ? 1 : 0) + (n.isMax ? 1 : 0) + (n.integer != nil ? 1 : 0) + (n.unsigned != nil ? 1 : 0) + (n.float != nil ? 1 : 0) == 1
+
+// bounds are literals of the leaf's base type (RFC 7950 9.2.4): fractional bounds only on decimal64,
+// integer bounds compared with decimal64 values are exactly representable
+//@ macro boundFits(n RangeNumber, v val.Value) bool = n.isMin || n.isMax || \
+//@      (dyn(v) == val.Decimal64 ? (!isNaN(v.(val.Decimal64)) && (n.float != nil ? !isNaN(*n.float) : (n.integer != nil ? (-9007199254740992 <= *n.integer && *n.integer <= 9007199254740992) : *n.unsigned <= 9007199254740992))) \
+//@       : (n.float == nil && (dyn(v) != val.UInt64 ==> n.integer != nil) && (dyn(v) == val.UInt64 && n.integer != nil ==> *n.integer >= 0)))
+
+//@ macro bval(n RangeNumber) int = n.integer != nil ? *n.integer : *n.unsigned
+//@ macro bflt(n RangeNumber) float64 = n.float != nil ? *n.float : (n.integer != nil ? f64(*n.integer) : f64(*n.unsigned))
+
+// bcmp: sign of (bound - value); 'min' is below and 'max' above every value
+//@ macro bcmp(n RangeNumber, v val.Value) int = n.isMin ? -1 : (n.isMax ? 1 : \
+//@      (dyn(v) == val.Decimal64 ? sgn3(bflt(n) < v.(val.Decimal64), bflt(n) > v.(val.Decimal64)) : sign(bval(n) - ival(v))))
+
+//@ func (n RangeNumber) Compare(v val.Value) (int64, error)
+//@   mode bv
+//@   property C05 C13
+//@   requires rangeable(v) && n.str != "" && wfNum(n) && boundFits(n, v)
+//@   assigns nothing
+//@   ensures result1 == nil
+//@   ensures sign(result0) == bcmp(n, v)
+
+// inEntry: the value lies in this alternative
+//@ macro inEntry(e *RangeEntry, v val.Value) bool = (e.Exact.str != "" ==> bcmp(e.Exact, v) == 0) && (e.Min.str != "" ==> bcmp(e.Min, v) <= 0) && (e.Max.str != "" ==> bcmp(e.Max, v) >= 0)
+//@ macro wfEntry(e *RangeEntry, v val.Value) bool = e != nil && (e.Exact.str != "" ==> wfNum(e.Exact) && boundFits(e.Exact, v)) \
+//@      && (e.Min.str != "" ==> wfNum(e.Min) && boundFits(e.Min, v)) && (e.Max.str != "" ==> wfNum(e.Max) && boundFits(e.Max, v))
+
+//@ func (r *RangeEntry) CheckValue(v val.Value) error
+//@   mode bv
+//@   property C05 C13
+//@   requires rangeable(v) && wfEntry(r, v)
+//@   assigns nothing
+//@   ensures (result == nil) == inEntry(r, v)
+
+// inRange: one alternative of this restriction holds the value (an empty restriction allows everything)
+//@ macro inRange(r *Range, v val.Value) bool = len(r.Entries) == 0 || (exists k int :: 0 <= k && k < len(r.Entries) && inEntry(r.Entries[k], v))
+//@ macro wfRange(r *Range, v val.Value) bool = r != nil && (forall k int :: 0 <= k && k < len(r.Entries) ==> wfEntry(r.Entries[k], v))
+
+//@ func (r *Range) CheckValue(v val.Value) error
+//@   mode int
+//@   property C05 C13
+//@   requires rangeable(v) && wfRange(r, v)
+//@   assigns nothing
+//@   loop 1 invariant false
+//@   loop 2 invariant -1 <= rangeindex && rangeindex < len(r.Entries)
+//@   loop 2 invariant forall k int :: 0 <= k && k <= rangeindex ==> !inEntry(r.Entries[k], v)
+//@   loop 2 decreases len(r.Entries) - rangeindex
+//@   ensures (result == nil) == inRange(r, v)
